@@ -297,6 +297,21 @@ def _run_unit_once(name, workcopy, outdir, timeout=600, rlimit=None, dropped=())
                     return m.group(1)
         return None
 
+    def contract_tags(b):
+        for ln in b["lines"][:1]:
+            for k in range(min(ln, len(lines)) - 1, -1, -1):
+                m = re.search(r"\bfn\s+([A-Za-z_][A-Za-z0-9_]*)", lines[k])
+                if m and not lines[k].lstrip().startswith("//"):
+                    out = []
+                    for j in range(k, min(k + 120, len(lines))):
+                        if lines[j].strip() == "{" or (j > k and lines[j].rstrip().endswith("{") and "ensures" not in lines[j] and "requires" not in lines[j] and "=>" not in lines[j] and "match" not in lines[j] and "if " not in lines[j]):
+                            break
+                        t = tag_re.search(lines[j])
+                        if t and t.group(1) not in out and t.group(1) != "__canary":
+                            out.append(t.group(1))
+                    return out
+        return []
+
     canary_failed = False
     failures = []
     tool_problem = None
@@ -313,6 +328,11 @@ def _run_unit_once(name, workcopy, outdir, timeout=600, rlimit=None, dropped=())
             tool_problem = "unrecognised verifier message: " + b["msg"]
             continue
         ob = [t for t in tags if t != "__canary"]
+        if not ob:
+            # no tagged clause among the reported lines (a failed precondition of a callee, an overflow,
+            # an assert of the annotation): attribute to the obligations named in the CONTRACT of the
+            # enclosing function (several extracted functions may share a name, e.g. `new`)
+            ob = contract_tags(b)
         if not ob:
             ob = [fn_ob.get(fn, "%s.%s" % (name, fn))]
         failures.append(dict(obligations=ob, function=fn, message=b["msg"], detail=b["text"]))
